@@ -293,7 +293,14 @@ func genWords(t *rapid.T, label string, min, max int) string {
 type DocGenOpts struct {
 	Nums  []float64
 	Dates []time.Time
+	// KWords: values of the keyword field k (default Vocab)
+	KWords []string
 }
+
+// NumberLikeWords: keyword values that could be mistaken for prefix-coded numbers or for
+// other typed encodings (first byte in 0x20..0x5F and a length of 6-11 characters), next to
+// ordinary words
+var NumberLikeWords = []string{"20240115", "10000000", "8675309", "ABC123", "a", "ab", "b", "x", "19991231", "7654321", "BCD234", "1"}
 
 func GenDoc(t *rapid.T, label string) Doc { return GenDocOpts(t, label, DocGenOpts{}) }
 
@@ -326,7 +333,11 @@ func GenDocOpts(t *rapid.T, label string, o DocGenOpts) Doc {
 	if arr, n := arity("k"); n > 0 {
 		f := &Field{IsArray: arr}
 		for i := 0; i < n; i++ {
-			f.S = append(f.S, rapid.SampledFrom(Vocab).Draw(t, label+".k"))
+			kw := Vocab
+			if o.KWords != nil {
+				kw = o.KWords
+			}
+			f.S = append(f.S, rapid.SampledFrom(kw).Draw(t, label+".k"))
 		}
 		d["k"] = f
 	}
